@@ -175,6 +175,11 @@ def first_principles(rep, lc):
                sample={"constant": "OurG2Config::GENERATOR", "on_twist": on, "r_torsion": tors})
 
 
+def engine_parameters(rep, f):
+    """the REF / first-principles / override obligations on the pairing-engine parameters (also used by C17)"""
+    return _params(rep, f)
+
+
 def run(rep, facts, tier):
     f = facts["A"]
     rep.explanation = (
@@ -187,6 +192,17 @@ def run(rep, facts, tier):
     rep.trusted += ["rustc const evaluator", "arkworks generic Bls12/Fp12 code (shared by both instantiations)", "python integer arithmetic"]
     rep.assumptions += ["bilinearity and non-degeneracy are theorems about the generic engine, inherited once the parameters coincide (not re-proved)",
                         "the crate's Fp and Fq are the right prime fields (C10/C11/C17)"]
+    n = _params(rep, f)
+    # canonical field parsing used by point (de)serialisation: from_bigint rejects repr >= p (same rule as C02/C11)
+    from . import c02
+    from .curve import Cfg
+    c02.from_bigint_rule(rep, Cfg(f))
+    rep.analysed["constants_compared"] = n
+    rep.floor("constants_compared", n, 21)
+    rep.extra["exhaustive"] = True
+
+
+def _params(rep, f):
     lc = {}
     n = 0
     for trait, ls, rs in PAIRS:
@@ -230,7 +246,4 @@ def run(rep, facts, tier):
         first_principles(rep, lc)
     except KeyError as e:
         rep.fail_closed("missing constant group %r" % (e,))
-    # associated types: Config::Fp etc. are the crate's own fields (by construction of the type names in the value trees)
-    rep.analysed["constants_compared"] = n
-    rep.floor("constants_compared", n, 21)
-    rep.extra["exhaustive"] = True
+    return n
